@@ -49,4 +49,11 @@ static cJSON_bool print_string(const cJSON * const item, printbuffer * const p)
 __CPROVER_requires(__CPROVER_is_fresh(item, sizeof(cJSON)))
 __CPROVER_ensures(g_ps.calls == __CPROVER_old(g_ps.calls) + 1 && g_ps.s == item->valuestring && g_ps.p == p && __CPROVER_return_value == g_ps.ret) /*@C05 C04*/
 __CPROVER_assigns(g_ps);
+#ifdef VF_PUBVIEW_GetObjectItem
+/* cJSON_HasObjectItem: one case-insensitive lookup (public view, specs/c_tree.h) with the caller's arguments; 1 exactly when it finds a member */
+CJSON_PUBLIC(cJSON_bool) cJSON_HasObjectItem(const cJSON *object, const char *string)
+__CPROVER_requires(1)
+__CPROVER_ensures(g_fwp.pub_calls == __CPROVER_old(g_fwp.pub_calls) + 1 && g_fwp.pub_a == (const void*)object && g_fwp.pub_b == (const void*)string && __CPROVER_return_value == (g_fwp.pub_ret != NULL ? 1 : 0)) /*@C06*/
+__CPROVER_assigns(g_fwp);
+#endif
 #endif
